@@ -510,6 +510,14 @@ var cmdSpecs = []cmdSpec{
 			out = append(out, b.clone("neither -n nor -d").set("number", int64(0)).set("max-dist", ""))
 			out = append(out, b.clone("-n only").set("max-dist", ""))
 			out = append(out, b.clone("--table with -n").set("table", true).set("max-dist", ""))
+			// every combination of the three options that select and shape the catchment: none changes what another means
+			for _, table := range []bool{false, true} {
+				for _, n := range []int64{0, 1, 3} {
+					for _, d := range []string{"", "0.5"} {
+						out = append(out, b.clone(fmt.Sprintf("table=%v -n %d -d %q", table, n, d)).set("table", table).set("number", n).set("max-dist", d))
+					}
+				}
+			}
 			return out
 		},
 		want: func(s *scenario) cmdWant {
